@@ -220,6 +220,9 @@ def check_window(acc: Acc, zc: _Z, z, u, lo, hi):
     for i in range(len(bounds) - 1):
         a, b = bounds[i], bounds[i + 1]
         _zone_intervals(acc, zc, u if (u is not None and i & 1) else z, idx, a, b, bool(i & 2))
+    # ---- cache-order histories on fresh cached zones, for every transition on the first or last day of a 32-day cache period
+    if u is not None:
+        check_histories(acc, zc, z, u, L, lo, hi)
     # ---- 32-day cache periods with several transitions (all of them are walked and queried after the 2nd transition)
     multi = zw.transitions_per_cache_period(L)
     for pnum, cnt in multi.items():
@@ -227,6 +230,87 @@ def check_window(acc: Acc, zc: _Z, z, u, lo, hi):
     if multi:
         acc.notes.setdefault("multi_transition_periods", {})[zid] = sorted(zw.fmt_ns((p << 5) * DAY_NS)[:10] for p in multi)[:6]
     return L[0], L[-1], bool(wz.error)
+
+
+CACHE_PERIOD_DAYS = 32       # _PERIOD_SHIFT = 5
+CACHE_SLOTS = 512            # __CACHE_SIZE: periods p and p +- 512k share a slot
+
+
+def fresh_cached(z, u):
+    """a new, empty caching wrapper around the same underlying zone (private factory; None when unavailable)"""
+    try:
+        f = type(z)._for_zone(u)
+    except Exception:  # noqa: BLE001
+        return None
+    return f if (f is not z and f is not u and type(f) is type(z)) else None
+
+
+def check_histories(acc, zc, z, u, L, lo, hi):
+    """Operation histories on the zone-interval cache, derived from its constants.  For every walked transition T whose UTC day is the first
+    or the last day of a cache period, fresh cached zones are asked, for each aliased instant a in {T + 512, T + 1024, T-1ns - 512,
+    T-1ns - 1024 periods} (same cache slot as T's period):
+        a, then around T ascending (end of the previous day, 00:00 of T's day, T-1ns, T, T+1ns, end of T's day, 00:00 of the next day)
+        a, then around T descending
+    and once each: around T ascending / descending followed by all aliases.
+    Every answer must be the interval the uncached zone gives for that instant."""
+    zid = zc.zid
+    span = CACHE_PERIOD_DAYS * CACHE_SLOTS * DAY_NS
+    for k in range(1, len(L)):
+        T = L[k][0]
+        if T is None or not (lo <= T <= hi):
+            continue
+        day = T // DAY_NS
+        if day % CACHE_PERIOD_DAYS not in (0, CACHE_PERIOD_DAYS - 1):
+            continue
+        d0 = day * DAY_NS
+        local = [q for q in (d0 - 1, d0, T - 1, T, T + 1, d0 + DAY_NS - 1, d0 + DAY_NS) if MIN_NS <= q <= MAX_NS]
+        local = sorted(set(local))
+        alias = [q for q in (T + span, T + 2 * span, T - 1 - span, T - 1 - 2 * span) if MIN_NS <= q <= MAX_NS]
+        want = {}
+        try:
+            for q in alias + local:
+                want[q] = zw.iv_tuple(u.get_zone_interval(zw.mk_instant(q)))
+        except Exception as ex:  # noqa: BLE001
+            acc.lib_exception("C04/history-raw/%s" % zid, ex, _case(zid, instant_ns=T))
+            continue
+        acc.count(evaluations=len(want))
+        acc.outcome("cache-history:transition-on-%s-day-of-a-period" % ("first" if day % CACHE_PERIOD_DAYS == 0 else "last"))
+        # one stale node at a time: a later alias would overwrite the slot before T's period is asked for
+        histories = []
+        for a_q in alias:
+            histories.append(("alias %s then ascending" % zw.fmt_ns(a_q)[:10], [a_q] + local))
+            histories.append(("alias %s then descending" % zw.fmt_ns(a_q)[:10], [a_q] + local[::-1]))
+        histories.append(("ascending then all aliases", local + alias))
+        histories.append(("descending then all aliases", local[::-1] + alias[::-1]))
+        for name, seq in histories:
+            f = fresh_cached(z, u)
+            if f is None:
+                acc.degrade("fresh caching wrapper not constructible (_CachedDateTimeZone._for_zone): cache-order histories skipped")
+                return
+            for i, q in enumerate(seq):
+                try:
+                    got = zw.iv_tuple(f.get_zone_interval(zw.mk_instant(q)))
+                except Exception as ex:  # noqa: BLE001
+                    acc.lib_exception("C04/history/%s" % zid, ex, _case(zid, instant_ns=q, history=seq[:i + 1]))
+                    break
+                acc.count(evaluations=1, transitions=1)
+                if got != want[q]:
+                    zc.v("history", lambda: "fresh cached zone asked in turn about %s: the answer for %s is %s, the uncached zone says %s (transition at %s, history %s)" % (
+                        [zw.fmt_ns(x) for x in seq[:i + 1]], zw.fmt_ns(q), zw.fmt_iv(got), zw.fmt_iv(want[q]), zw.fmt_ns(T), name),
+                        instant_ns=q, history=list(seq[:i + 1]), py=_py_history(zid, seq[:i + 1], want[q]))
+                    break
+
+
+def _py_history(zid, seq, exp):
+    return ("from pyoda_time import Instant\nfrom pyoda_time.time_zones._tzdb_date_time_zone_source import TzdbDateTimeZoneSource\n\n"
+            "def test_replay():\n"
+            "    z = TzdbDateTimeZoneSource.default.for_id(%r)   # a fresh zone object with an empty interval cache\n"
+            "    e = Instant.from_unix_time_ticks(0)\n"
+            "    for ns in %r:\n"
+            "        zi = z.get_zone_interval(Instant.from_unix_time_ticks(ns // 100).plus_nanoseconds(ns %% 100))\n"
+            "    got = ((zi.start - e).to_nanoseconds() if zi.has_start else None, (zi.end - e).to_nanoseconds() if zi.has_end else None,\n"
+            "           zi.name, zi.wall_offset.seconds, zi.savings.seconds)\n"
+            "    assert got == %r  # what the zone answers for the last instant when asked without that history\n" % (zid, list(seq), tuple(exp)))
 
 
 def _zone_intervals(acc, zc, z, idx, a, b, use_interval, exp=None):
@@ -371,7 +455,9 @@ def run(ctx):
     tier = ctx.tier
     ctx.rule = ("states = (zone id, interval) pairs met by the forward walk; non-trivial = transitions (an interval with a predecessor that "
                 "differs from it), counted per zone id; every interval is additionally queried at start, start+1ns, midpoint and end-1ns "
-                "through the provider's cached zone and through the zone underneath the cache")
+                "through the provider's cached zone and through the zone underneath the cache; for every transition on the first/last day of a 32-day "
+                "cache period three operation histories (aliased periods +-512/+-1024 first, then around the transition, and reversed) are replayed on "
+                "fresh cached zones and compared with the uncached zone")
     ctx.assumptions = ["window plan (where the recurring tail starts) is read from the .nzd bytes by the independent decoder; it decides only where to walk",
                        "quick tier: recurring tails are walked for one full 400-year Gregorian cycle after the tail start plus 9997..9999 "
                        "(yearly rules are periodic in 146,097 days); thorough tier walks every canonical zone to the end of time",
